@@ -14,6 +14,7 @@ package db
 // Everything observed goes to $VERIF_OUT/crash.cases; the Lean driver (family `crash`) judges it with `acceptKey`.
 
 import (
+	"syscall"
 	"bufio"
 	"encoding/hex"
 	"fmt"
@@ -113,14 +114,42 @@ func TestVerifCrashChild(t *testing.T) {
 		os.Exit(3)
 	}
 	c16say("open ok")
+	if mode == "openkill" {
+		// die the instant Open has returned: whatever Open started in the background (replay, flush of the files the last
+		// kill left behind) is interrupted as early as a kill can interrupt it
+		syscall.Kill(os.Getpid(), syscall.SIGKILL)
+		time.Sleep(time.Hour)
+	}
 	switch mode {
 	case "store":
 		start, _ := strconv.Atoi(os.Getenv("VERIF_CRASH_START"))
 		count, _ := strconv.Atoi(os.Getenv("VERIF_CRASH_COUNT"))
+		dup := os.Getenv("VERIF_CRASH_DUP") == "1"
+		selfKill, _ := strconv.Atoi(os.Getenv("VERIF_CRASH_SELFKILL"))
+		nack := 0
 		for i := start; i < start+count; i++ {
 			_, v := c16attempt(seed, i, nkeys, tier)
-			if err := d.StoreSignedVAA(v); err == nil {
+			var err error
+			if dup {
+				// the same VAA stored by two callers at once (processor and backfill both hold it): success is acknowledged as
+				// soon as one of the two calls reports it
+				res := make(chan error, 2)
+				gate := make(chan struct{})
+				for g := 0; g < 2; g++ {
+					go func() { <-gate; res <- d.StoreSignedVAA(v) }()
+				}
+				close(gate)
+				err = <-res
+			} else {
+				err = d.StoreSignedVAA(v)
+			}
+			if err == nil {
 				c16say("ack " + strconv.Itoa(i))
+				nack++
+				if selfKill > 0 && nack >= selfKill {
+					syscall.Kill(os.Getpid(), syscall.SIGKILL)
+					time.Sleep(time.Hour)
+				}
 			} else {
 				c16say("fail " + strconv.Itoa(i))
 			}
@@ -250,6 +279,27 @@ func TestVerifCrash(t *testing.T) {
 			}
 			if soak {
 				killAfter = 1
+			}
+			if soak && c%4 == 2 {
+				// an extra incarnation that dies the instant its Open returns (second kill before the background flush of what
+				// the first kill left behind can finish)
+				ok := c16start(t, append(base, "VERIF_CRASH_MODE=openkill"))
+				okT := time.After(40 * time.Second)
+			okloop:
+				for {
+					select {
+					case _, more := <-ok.lines:
+						if !more {
+							break okloop
+						}
+					case <-okT:
+						ok.kill()
+					}
+				}
+				ok.cmd.Wait()
+			}
+			if soak && c%2 == 1 {
+				base = append(base, "VERIF_CRASH_DUP=1", "VERIF_CRASH_SELFKILL=1")
 			}
 			delay := time.Duration(r.Intn(1500)) * time.Microsecond
 			ch := c16start(t, append(base, "VERIF_CRASH_MODE=store", "VERIF_CRASH_START="+strconv.Itoa(next), "VERIF_CRASH_COUNT="+strconv.Itoa(quota)))
